@@ -87,6 +87,16 @@ class PROP(Prop):
                 cs.append(Case("SRV tcp %s - - r=RSI:7:1:-,r=RSI:7:1:-" % mb.rscript(parts), {"k": "srv_pid", "nparts": len(parts)}))
             rfr = mb.be16(0) + mb.be16(pid) + mb.be16(5) + b"\x09\x03\x02\x00\x07"
             cs.append(Case(cligen.cli_line("tcp", 9, [cligen.call_op(("RHR", 1, 1), R="d" + rfr.hex())]), {"k": "cli_pid", "nparts": 1}))
+            # the same reply split at every offset, its payload being bytes that would themselves pass for a frame answering the NEXT
+            # call; then a further call with its own reply: the refused frame is refused as a whole (nothing of it is delivered later,
+            # nothing is reported before it is complete) and the next call gets its own reply
+            if pid in (1, 0x8000, 0xFFFF) or rng.random() < 0.1:
+                forged = mb.tcp_frame(1, 9, b"\x03\x02\xde\xad")
+                bad = mb.be16(0) + mb.be16(pid) + mb.be16(1 + len(forged)) + b"\x09" + forged
+                own = mb.tcp_frame(1, 9, b"\x03\x02\x00\x2a")
+                for cut in range(1, len(bad)):
+                    ops = [cligen.call_op(("RHR", 1, 1), R=mb.rscript([bad[:cut], bad[cut:]])), cligen.call_op(("RHR", 2, 1), R="d" + own.hex())]
+                    cs.append(Case(cligen.cli_line("tcp", 9, ops), {"k": "cli_pid_next", "nparts": 2, "cut": cut}))
         # --- emitted frames
         for _ in range(300 if tier == "quick" else 3000):
             req = mb.rnd_req(rng)
@@ -185,6 +195,14 @@ class PROP(Prop):
         if k == "cli_pid":
             res, _ = cligen.res_and_w(r)
             return None if res == "T:InvalidData" else "non-zero protocol identifier in a reply: %s" % res[:60]
+        if k == "cli_pid_next":
+            rs = cligen.split_results(r)
+            if len(rs) != 2:
+                return "result count: %s" % r[:80]
+            r1, r2 = cligen.res_and_w(rs[0])[0], cligen.res_and_w(rs[1])[0]
+            if r1 != "T:InvalidData":
+                return "reply with a non-zero protocol identifier split at offset %d: %s" % (m["cut"], r1[:60])
+            return None if r2 == "OK:RHR:42" else "after a refused frame (split at offset %d) the next call returned %s instead of its own reply 42: bytes of the refused frame were delivered" % (m["cut"], r2[:60])
         if k == "emit_hist":
             stream = b"".join(cligen.res_and_w(x)[1] for x in cligen.split_results(r))
             pos = 0
@@ -212,7 +230,7 @@ class PROP(Prop):
         return None
 
     def nontrivial(self, c):
-        return c.meta.get("nparts", 1) >= 2 or c.meta["k"] in ("srv_pid", "cli_pid", "srv_len", "cli_len", "srv_bare", "cli_bare") or c.meta.get("nframes", 1) >= 2
+        return c.meta.get("nparts", 1) >= 2 or c.meta["k"] in ("srv_pid", "cli_pid", "cli_pid_next", "srv_len", "cli_len", "srv_bare", "cli_bare") or c.meta.get("nframes", 1) >= 2
 
     def distribution(self, cases):
         d = {}
